@@ -15,7 +15,7 @@ def run(chk, tier):
                 'list), clone shares exactly that Arc; K1: on the mocked-call path the only field of Unimock that is read is shared_state, so '
                 'original and clones are interchangeable; only ordered clauses touch the slot cursor, per-method pattern lists are independent '
                 'map entries keyed by TypeId::of::<F>(), teardown only accumulates over the map in whatever order.')
-    for cfg in configs(tier, thorough=('std', 'mocks', 'nostd-spin')):
+    for cfg in configs(tier, thorough=('std', 'mocks', 'nostd-spin', 'nostd')):
         F = load(chk, cfg)
         M = factsmod.load(cfg, crate='unimock_macros')
         # R18.1
